@@ -51,6 +51,9 @@ static Result scenario(int which, uint64_t seed)
             std::vector<int> x(ln); for (int i = 0; i < ln; i++) x[i] = 100 * (fc[rank] + i) + rep;
             for (CommPkg* c : { (CommPkg*)pc, (CommPkg*)t3, (CommPkg*)t2 }) {
                 std::vector<int>& r = c->communicate(x); add(R, LL(std::vector<int>(r.begin(), r.begin() + off[rank].size())));
+                // a second exchange on the same package straight away: its packing must not disturb a send still pending from the first
+                std::vector<int> x2(x); for (auto& v : x2) v += 7;
+                std::vector<int>& r2 = c->communicate(x2); add(R, LL(std::vector<int>(r2.begin(), r2.begin() + off[rank].size())));
                 std::vector<int> y(off[rank].size()), res(ln, 0); for (size_t j = 0; j < y.size(); j++) y[j] = off[rank][j] + 1;
                 c->communicate_T(y, res); add(R, LL(res));
             }
@@ -121,6 +124,8 @@ int main(int argc, char** argv)
     // schedules: (mode, site_tag, perm_index, max_delay_us, gather_us)
     struct Sched { int mode, site, perm, delay, gather; };
     std::vector<Sched> scheds = { {0, -1, 0, 0, 0}, {1, -1, 0, 0, 300}, {2, -1, 0, 200, 300}, {2, -1, 0, 400, 100}, {2, -1, 0, 0, 600} };
+    // synchronous completion of standard-mode sends (mode + 10): no reliance on eager buffering
+    scheds.push_back({10, -1, 0, 0, 0}); scheds.push_back({12, -1, 0, 300, 300});
     if (E.thorough) for (int k = 0; k < 10; k++) scheds.push_back({2, -1, 0, 100 * (k % 4), 100 * (k % 5)});
     // exhaustive per wildcard site for small process counts: every order of preference among the sources
     int sites[] = { 12345, 6543, 9876, 6789, 4321, 7890, 29485 };
